@@ -52,15 +52,17 @@ void digestMatrix(Digest& d, const AMatrix& m)
   VectorDouble v = m.getValues();
   for (double x : v) d.d(x);
 }
+long g_lastDefined = -1; // defined values among the columns digested last (a result with none cannot vary with the seed)
 std::string newColumnsDigest(const Db* db, int ncolBefore)
 {
   Digest d;
   if (!db) return "null";
+  g_lastDefined = 0;
   for (int ic = ncolBefore; ic < db->getColumnNumber(); ic++)
   {
     d.s(db->getNameByColIdx(ic));
     VectorDouble v = db->getColumnByColIdx(ic, false, false);
-    for (double x : v) d.d(FFFF(x) ? std::nan("") : x);
+    for (double x : v) { d.d(FFFF(x) ? std::nan("") : x); if (!FFFF(x) && !std::isnan(x)) g_lastDefined++; }
   }
   d.i(db->getColumnNumber() - ncolBefore);
   return d.hex();
@@ -102,11 +104,13 @@ const char* OBS13[] = {"simtub", "simtub-nc", "simfft", "gibbs", "simtub", "simt
 const int NOBS13 = 9;
 
 int freeTargets(const World& W);
+long freeDefinedValues(const World& W, int ncolBefore);
 
 struct Observed
 {
   std::string digest;
   int ret = 0;
+  long freeDefined = -1; // simulations: defined values at active targets that do not sit on a datum (-1: not counted)
 };
 
 // executes the observed call on W (or on clones for the "other seed" variant); returns digest
@@ -398,6 +402,18 @@ Observed observe(World& W, const Op& op, int seedShift, Ctx* c, bool judge13, lo
     if (k == "simtub-nc") o.ret = simtub(nullptr, W.dbout, W.model, nullptr, nbsimu, seed, nbtuba);
     else o.ret = simtub(W.dbin, W.dbout, W.model, W.neigh, nbsimu, seed, nbtuba);
     o.digest = std::to_string(o.ret) + newColumnsDigest(W.dbout, nc);
+    o.freeDefined = freeDefinedValues(W, nc);
+    if (getenv("SIMKIT_DEBUG_SIM") && W.dbin && k == "simtub")
+      for (int ie = 0; ie < W.dbin->getSampleNumber(); ie++)
+        fprintf(stderr, "datum %d active=%d x=%.9g z=%.9g\n", ie, (int)W.dbin->isActive(ie), W.dbin->getCoordinate(ie, 0), W.dbin->getZVariable(ie, 0));
+    if (getenv("SIMKIT_DEBUG_SIM"))
+      for (int it = 0; it < W.dbout->getSampleNumber(); it++)
+      {
+        // debugging aid for replays
+        fprintf(stderr, "sim seed=%d target %d active=%d :", seed, it, (int)W.dbout->isActive(it));
+        for (int ic = nc; ic < W.dbout->getColumnNumber(); ic++) fprintf(stderr, " %.6g", W.dbout->getValueByColIdx(it, ic));
+        fprintf(stderr, "\n");
+      }
     if (judge13 && c && o.ret == 0)
     {
       // simulation ranks differ
@@ -409,7 +425,8 @@ Observed observe(World& W, const Op& op, int seedShift, Ctx* c, bool judge13, lo
         for (size_t i = 0; i < s0.size(); i++) if (!sameBits(s0[i], s1[i]) && !(isUndef(s0[i]) && isUndef(s1[i]))) same = false;
         bool anyDefined = false;
         for (double x : s0) if (!isUndef(x)) anyDefined = true;
-        if (same && anyDefined && W.spec.nvar == 1) c->violation("C13|ranks-identical|" + k, "simulations 1 and 2 of one call are identical");
+        // only values at free targets can differ between ranks (targets on data reproduce them, refused systems give TEST)
+        if (same && anyDefined && o.freeDefined >= 2 && W.spec.nvar == 1) c->violation("C13|ranks-identical|" + k, "simulations 1 and 2 of one call are identical");
         else c->count("probe.ranks-differ");
       }
       // conditioning: a target coinciding with a datum reproduces it
@@ -459,6 +476,7 @@ Observed observe(World& W, const Op& op, int seedShift, Ctx* c, bool judge13, lo
     DbGrid* g = dynamic_cast<DbGrid*>(W.dbout);
     o.ret = simfft(g, W.model, param, 1 + a % 2, seed);
     o.digest = std::to_string(o.ret) + newColumnsDigest(W.dbout, nc);
+    o.freeDefined = freeDefinedValues(W, nc);
     return o;
   }
   if (k == "simpgs")
@@ -501,6 +519,7 @@ Observed observe(World& W, const Op& op, int seedShift, Ctx* c, bool judge13, lo
     NeighUnique* nu = NeighUnique::create();
     o.ret = simpgs(din, W.dbout, rp, m1, m2, nu, nbsimu, seed, false, false, false, false, 20 + b % 30, 5, 20 + a % 20);
     o.digest = std::to_string(o.ret) + newColumnsDigest(W.dbout, nc);
+    o.freeDefined = freeDefinedValues(W, nc);
     if (judge13 && c && o.ret == 0 && cond)
     {
       DbGrid* g = dynamic_cast<DbGrid*>(W.dbout);
@@ -562,6 +581,14 @@ Observed observe(World& W, const Op& op, int seedShift, Ctx* c, bool judge13, lo
     int nbsimu = 1 + a % 2;
     o.ret = gibbs_sampler(db, gm, nbsimu, seed, 5 + b % 10, 10 + b % 30, false, true, false, false, false, 0, 5., false, false, false);
     o.digest = std::to_string(o.ret) + newColumnsDigest(db, nc);
+    if (getenv("SIMKIT_DEBUG_GIBBS"))
+      for (int i = 0; i < n; i++)
+      {
+        // debugging aid for replays
+        fprintf(stderr, "gibbs sample %d active=%d x=%g lo=%g up=%g ->", i, (int)db->isActive(i), db->getCoordinate(i, 0), lo[i], up[i]);
+        for (int ic = nc; ic < db->getColumnNumber(); ic++) fprintf(stderr, " %g", db->getValueByColIdx(i, ic));
+        fprintf(stderr, "\n");
+      }
     if (judge13 && c && o.ret == 0)
     {
       int checked = 0;
@@ -610,6 +637,31 @@ int freeTargets(const World& W)
       onDatum = same;
     }
     if (!onDatum) n++;
+  }
+  return n;
+}
+
+// defined simulated values at the targets that are free to vary with the seed
+long freeDefinedValues(const World& W, int ncolBefore)
+{
+  if (!W.dbout) return 0;
+  long n = 0;
+  for (int it = 0; it < W.dbout->getSampleNumber(); it++)
+  {
+    if (!W.dbout->isActive(it)) continue;
+    VectorDouble ct = W.dbout->getSampleCoordinates(it);
+    bool onDatum = false;
+    for (int ie = 0; W.dbin && ie < W.dbin->getSampleNumber() && !onDatum; ie++)
+    {
+      if (!W.dbin->isActive(ie)) continue;
+      VectorDouble cd = W.dbin->getSampleCoordinates(ie);
+      bool same = true;
+      for (size_t d = 0; d < ct.size() && d < cd.size(); d++) if (std::fabs(ct[d] - cd[d]) > 1e-9) same = false;
+      onDatum = same;
+    }
+    if (onDatum) continue;
+    for (int ic = ncolBefore; ic < W.dbout->getColumnNumber(); ic++)
+      if (!isUndef(W.dbout->getValueByColIdx(it, ic))) n++;
   }
   return n;
 }
@@ -1054,6 +1106,8 @@ void execWorld(const Plan& p, Ctx& c, bool bare, const std::string& prop)
     else if (op.kind == "observe")
     {
       if (!built) { c.line("Z observe-before-world"); return; }
+      // the premises of a recipe hold at execution time too (a minimised or hand-written plan cannot leave them)
+      if (!admissibleObs(op.S(0), W.spec)) { c.line("Z observed-call-outside-its-premises " + op.S(0)); return; }
       // arguments of the observed call: identical content in A and B
       std::string rb = readBack(W);
       c.obs("readback", rb);
@@ -1089,6 +1143,10 @@ void execWorld(const Plan& p, Ctx& c, bool bare, const std::string& prop)
         Observed o2 = observe(W2, op, 17, nullptr, false);
         bool degenerate = W2.dbout == nullptr || freeTargets(W2) < 2;
         if (op.S(0) == "gibbs") degenerate = W2.dbin->getSampleNumber(true) < 2;
+        // a call that produced no defined value (e.g. every kriging system refused) has nothing that can vary
+        // facies are discrete: two seeds may agree on a handful of nodes by chance (1/3 per node); 40 free values make that 1e-19
+        long need = (op.S(0) == "simpgs") ? 40 : 2;
+        if (o2.freeDefined >= 0 && o2.freeDefined < need) { degenerate = true; c.count("probe.other-seed-too-few-free-values"); }
         if (o2.ret == 0 && o2.digest == o.digest && !degenerate)
           c.violation("C13|other-seed-same-result|" + op.S(0), "two different seeds gave bit-identical results");
         else c.count("probe.other-seed-differs");
